@@ -413,6 +413,34 @@ static void op_small(const char *op, struct arg *a, int n, FILE *out) {
 		tm = localtime(&env.ev_now);
 		env.ev_tz.t_offset = tm ? tm->tm_gmtoff : 0;
 		if (time_parse((const char *)a[0].p, &res, &env)) fputs("NONE", out); else fprintf(out, "OK %lld", (long long)res);
+	} else if (strcmp(op, "tzrestore") == 0 && n == 3) {
+		/* tzrestore <date> <now> <TZ | ~ for unset>: what time_parse leaves behind.
+		 * -> <OK t | NONE> TZ=<hex | ~> OFF=<tm_gmtoff of now after the call> WAS=<tm_gmtoff of now before the call> */
+		struct environment env;
+		struct tm *tm;
+		const char *after;
+		time_t res = 0;
+		long was;
+		memset(&env, 0, sizeof(env));
+		if (!(a[2].n == 1 && a[2].p[0] == '~')) {
+			setenv("TZ", (const char *)a[2].p, 1);
+			env.ev_tz.t_state = a[2].n ? TZ_STATE_SET : TZ_STATE_UTC;
+			strlcpy(env.ev_tz.t_buf, (const char *)a[2].p, sizeof(env.ev_tz.t_buf));
+		} else {
+			unsetenv("TZ");
+			env.ev_tz.t_state = TZ_STATE_LOCAL;
+		}
+		tzset();
+		env.ev_now = (time_t)strtoll((const char *)a[1].p, NULL, 10);
+		tm = localtime(&env.ev_now);
+		env.ev_tz.t_offset = tm ? tm->tm_gmtoff : 0;
+		was = env.ev_tz.t_offset;
+		if (time_parse((const char *)a[0].p, &res, &env)) fputs("NONE", out); else fprintf(out, "OK %lld", (long long)res);
+		after = getenv("TZ");
+		fputs(" TZ=", out);
+		if (after == NULL) fputs("~", out); else hexs(out, after);
+		tm = localtime(&env.ev_now);		/* no tzset() here: the zone mdsort itself would go on with */
+		fprintf(out, " OFF=%ld WAS=%ld", tm ? (long)tm->tm_gmtoff : -1L, was);
 	} else if (strcmp(op, "flagsp") == 0 && n == 1) {
 		struct message_flags mf = { 0, 0 };
 		if (message_flags_parse(&mf, (const char *)a[0].p)) fputs("NONE", out); else fprintf(out, "OK %u %u", mf.mf_upper, mf.mf_lower);
